@@ -308,6 +308,17 @@ func (n *LocalNode) executeLeave() (pre, succ chord.VNode, err error) {
 		n.logger.Info("Leave locks acquired (self -> succ)")
 	}
 
+	// our successor was read before the locks were taken: if a node joined between us and
+	// it in the meantime, the keys must go to the new successor. Release and try again.
+	if curr := n.getSuccessor(); curr == nil || curr.ID() != succ.ID() {
+		n.logger.Warn("Successor changed while acquiring leave locks, retrying")
+		n.state.Set(chord.Active)
+		if err := succ.FinishLeave(false, true); err != nil {
+			n.logger.Warn("error releasing leave lock in successor", zap.Error(err))
+		}
+		return nil, nil, chord.ErrLeaveInvalidState
+	}
+
 	n.surrogateMu.Lock()
 	defer n.surrogateMu.Unlock()
 
